@@ -10,7 +10,7 @@
 
    Domain (in_domain): explicit track counts 0..64 per axis, at most 64 children of any kind, line indices in
    [-64, 64] including 0, spans in [1, 64] (`span 0` excluded), all four auto-flow modes. *)
-From Coq Require Import ZArith Bool List Lia.
+From Coq Require Import ZArith QArith Bool List Lia.
 From TV Require Import Model.PlacementBase Gen.PlacementGen Model.Placement
   Proofs.PlacementTables Proofs.PlacementMatrix Proofs.PlacementProofs Proofs.PlacementTotal.
 Import ListNotations.
@@ -228,3 +228,168 @@ Print Assumptions C03_grid_alg_total_is_grid_alg.
 Print Assumptions C03_grid_container_never_panics_static.
 Print Assumptions C03_grid_container_example_in_domain.
 Print Assumptions C03_grid_container_example_computed.
+
+(* ------------------------------------------------------------------------------------------------------------------
+   Fuel sufficiency of the sizing loops the grid / flex resumptions call (Model/GridAlg.v, Model/FlexAlg.v): with the FUEL
+   EXPRESSION THE MODEL PASSES the loop has reached its exit test, and any additional fuel leaves the result unchanged.  The
+   model's fuel exhaustion is its stand-in for a hang; an exhausted loop returns a normal-looking value, so these statements are
+   what excludes "the model silently stopped early".  Table of all fuelled loops: notes/FUEL.md.
+   Structurally counted loops: any `Num` instance, no premise.  `peq` (Model/FuelDefs.v): the same program of tree calls with the
+   same results (Leibniz equality up to extensionality of the continuations). *)
+From TV Require Model.Types Model.PlacementBase Model.GridAlgBase Model.GridIntrinsic Model.GridAlg Model.FuelDefs Proofs.GridIntrinsicProofs
+                Proofs.FuelProofs Proofs.FuelNumProofs.
+
+(* resolve_intrinsic_track_sizes of the resumption: `m_batch_loop (S (length items)) ffs 0 sorted tracks` (Model/GridAlg.v m_resolve_intrinsic) *)
+Theorem C03_m_batch_loop_fuel_suffices :
+  forall (T : Type) (H : TV.Num.Num.Num T) (ax : TV.Model.GridAlgBase.GAxis) (inner : TV.Model.Types.Size (option T))
+         (avail : TV.Model.GridTracks.avail_space T) (fp : bool) (ot : list (TV.Model.GridTracks.track T)) (oa ffs : T)
+         (items : list (@TV.Model.GridAlg.GItem T)) (tracks : list (TV.Model.GridTracks.track T)) (extra : nat),
+    let sorted := TV.Model.GridAlg.sort_by (fun a b => TV.Model.GridIntrinsic.item_lt (TV.Model.GridAlg.view ax a) (TV.Model.GridAlg.view ax b)) items in
+    TV.Model.FuelDefs.peq
+      (TV.Model.GridAlg.m_batch_loop ax inner avail fp ot oa (S (length items) + extra) ffs 0 sorted tracks)
+      (TV.Model.GridAlg.m_batch_loop ax inner avail fp ot oa (S (length items)) ffs 0 sorted tracks).
+Proof. intros. apply TV.Proofs.FuelProofs.m_batch_loop_fuel_suffices. Qed.
+
+(* ... from any offset, any item vector: length items - offset + 1 rounds are enough *)
+Theorem C03_m_batch_loop_any_fuel :
+  forall (T : Type) (H : TV.Num.Num.Num T) (ax : TV.Model.GridAlgBase.GAxis) (inner : TV.Model.Types.Size (option T))
+         (avail : TV.Model.GridTracks.avail_space T) (fp : bool) (ot : list (TV.Model.GridTracks.track T)) (oa ffs : T)
+         (f1 f2 off : nat) (items : list (@TV.Model.GridAlg.GItem T)) (tracks : list (TV.Model.GridTracks.track T)),
+    (length items - off < f1)%nat -> (length items - off < f2)%nat ->
+    TV.Model.FuelDefs.peq
+      (TV.Model.GridAlg.m_batch_loop ax inner avail fp ot oa f1 ffs off items tracks)
+      (TV.Model.GridAlg.m_batch_loop ax inner avail fp ot oa f2 ffs off items tracks).
+Proof. intros. apply TV.Proofs.FuelProofs.m_batch_loop_any_fuel; assumption. Qed.
+
+(* resolve_item_baselines of the resumption: `m_baseline_rows (length sorted) inner sorted` *)
+Theorem C03_m_baseline_rows_fuel_suffices :
+  forall (T : Type) (H : TV.Num.Num.Num T) (inner : TV.Model.Types.Size (option T)) (items : list (@TV.Model.GridAlg.GItem T)) (extra : nat),
+    let sorted := TV.Model.GridAlg.sort_by
+                    (fun a b => Z.ltb (TV.Model.PlacementBase.l_start (TV.Model.GridAlgBase.get_ax (TV.Model.GridAlg.g_line a) TV.Model.GridAlgBase.Block))
+                                      (TV.Model.PlacementBase.l_start (TV.Model.GridAlgBase.get_ax (TV.Model.GridAlg.g_line b) TV.Model.GridAlgBase.Block))) items in
+    TV.Model.FuelDefs.peq (TV.Model.GridAlg.m_baseline_rows (length sorted + extra) inner sorted)
+                          (TV.Model.GridAlg.m_baseline_rows (length sorted) inner sorted).
+Proof. intros. apply TV.Proofs.FuelProofs.m_baseline_rows_fuel_suffices. Qed.
+
+(* the kernel's batch loop (Model/GridIntrinsic.v resolve_intrinsic_track_sizes, fuel intrinsic_fuel items = S (length items));
+   = C09_intrinsic_terminates, restated here so that the list of fuelled loops is in one place *)
+Theorem C03_batch_loop_fuel_suffices :
+  forall (T : Type) (H : TV.Num.Num.Num T) contrib inner avail (items : list (TV.Model.GridIntrinsic.item T)) tracks extra,
+    TV.Model.GridIntrinsic.resolve_intrinsic_fuelled contrib inner avail (TV.Model.GridIntrinsic.intrinsic_fuel items + extra) items tracks
+    = TV.Model.GridIntrinsic.resolve_intrinsic_track_sizes contrib inner avail items tracks.
+Proof. intros. apply TV.Proofs.GridIntrinsicProofs.intrinsic_terminates. Qed.
+
+(* a fuelled loop whose result passes its own exit test is unchanged by more fuel: any `Num` *)
+Theorem C03_distribute_loop_exit_is_stable :
+  forall (T : Type) (H : TV.Num.Num.Num T) (aff : TV.Model.GridTracks.track T -> bool) (p pr lim : TV.Model.GridTracks.track T -> T)
+         fuel extra space tracks,
+    (let r := TV.Model.GridTracks.distribute_loop aff p pr lim fuel space tracks in
+     TV.Model.GridTracks.distribute_step aff p pr lim (fst r) (snd r) = None) ->
+    TV.Model.GridTracks.distribute_loop aff p pr lim (fuel + extra) space tracks = TV.Model.GridTracks.distribute_loop aff p pr lim fuel space tracks.
+Proof. intros. apply TV.Proofs.FuelNumProofs.distribute_loop_stable. assumption. Qed.
+
+(* numerically counted loops: exact instance XQ, on the stated classes *)
+
+(* find_size_of_fr: finite tracks with base size >= 0 and flex factor >= 0 (track_ok2), finite space *)
+Theorem C03_fr_loop_fuel_suffices :
+  forall (tracks : list (TV.Model.GridTracks.track TV.Num.QNum.XQ)) (sp : QArith_base.Q),
+    Forall TV.Proofs.GridTracksProofs.track_ok2 tracks ->
+    snd (TV.Model.GridTracks.fr_exit tracks (TV.Num.QNum.Fin sp)) = true /\
+    forall extra, TV.Model.GridTracks.fr_loop (TV.Model.GridTracks.fr_fuel tracks + extra) tracks (TV.Num.QNum.Fin sp) TV.Num.Num.infinity
+                  = TV.Model.GridTracks.fr_exit tracks (TV.Num.QNum.Fin sp).
+Proof. exact TV.Proofs.FuelNumProofs.fr_loop_fuel_suffices. Qed.
+
+(* distribute_space_up_to_limits as maximise_tracks (11.6) calls it: base size, fit-content-limited growth limit and incurred
+   increase finite, incurred >= 0 (tok), finite space *)
+Theorem C03_maximise_distribute_fuel_suffices :
+  forall (inner : option TV.Num.QNum.XQ) (sp : QArith_base.Q) (tracks : list (TV.Model.GridTracks.track TV.Num.QNum.XQ)),
+    Forall (TV.Proofs.GridTracksProofs.tok inner) tracks ->
+    let lim := TV.Model.GridTracks.fit_content_limited_growth_limit inner in
+    let r := TV.Model.GridTracks.distribute_space_up_to_limits (TV.Num.QNum.Fin sp) tracks (fun _ => true) (fun _ => TV.Num.Num.one)
+               TV.Model.GridTracks.base_size lim in
+    TV.Model.GridTracks.distribute_step (fun _ => true) (fun _ => TV.Num.Num.one) TV.Model.GridTracks.base_size lim (fst r) (snd r) = None /\
+    forall extra, TV.Model.GridTracks.distribute_loop (fun _ => true) (fun _ => TV.Num.Num.one) TV.Model.GridTracks.base_size lim
+                    (TV.Model.GridTracks.distribute_fuel tracks + extra) (TV.Num.QNum.Fin sp) tracks = r.
+Proof. exact TV.Proofs.FuelNumProofs.maximise_distribute_fuel_suffices. Qed.
+
+(* flex_loop as resolve_flexible_lengths calls it (fuel S (length items)): any context, any items, NaN and infinities included *)
+Theorem C03_flex_loop_fuel_suffices :
+  forall (k : TV.Model.Flex.LoopCtx TV.Num.QNum.XQ) (items : list (TV.Model.Flex.FlexItem TV.Num.QNum.XQ)),
+    exists res, TV.Model.Flex.flex_loop (S (length items)) k items = Some res /\
+                forall extra, TV.Model.Flex.flex_loop (S (length items) + extra) k items = Some res.
+Proof. exact TV.Proofs.FuelNumProofs.flex_loop_fuel_suffices. Qed.
+
+Print Assumptions C03_m_batch_loop_fuel_suffices.
+Print Assumptions C03_m_batch_loop_any_fuel.
+Print Assumptions C03_m_baseline_rows_fuel_suffices.
+Print Assumptions C03_batch_loop_fuel_suffices.
+Print Assumptions C03_distribute_loop_exit_is_stable.
+Print Assumptions C03_fr_loop_fuel_suffices.
+Print Assumptions C03_maximise_distribute_fuel_suffices.
+Print Assumptions C03_flex_loop_fuel_suffices.
+
+(* ---- non-vacuity of the premises above, on inputs where the loop needs more than one round ----
+   fr: two 1fr tracks, base sizes 100 and 0, space 120: the first round (h = 60) is invalid, the second (h = 20) exits; fuel 4.
+   maximise: limits 10 and 100, space 60: round 1 gives 10 to both, round 2 the remaining 40 to the second, round 3 exits. *)
+Definition C03_ex_fr_tracks : list (TV.Model.GridTracks.track TV.Num.QNum.XQ) :=
+  let f := TV.Num.QNum.Fin in
+  let z := f 0%Q in
+  [ TV.Model.GridTracks.mk_track TV.Model.GridTracks.KTrack false TV.Model.GridTracks.SAuto (TV.Model.GridTracks.SFr (f 1%Q)) z (f 100%Q) (f 100%Q) z z z false;
+    TV.Model.GridTracks.mk_track TV.Model.GridTracks.KTrack false TV.Model.GridTracks.SAuto (TV.Model.GridTracks.SFr (f 1%Q)) z z z z z z false ].
+Example C03_fr_loop_fuel_example :
+  Forall TV.Proofs.GridTracksProofs.track_ok2 C03_ex_fr_tracks /\
+  snd (TV.Model.GridTracks.fr_loop 1 C03_ex_fr_tracks (TV.Num.QNum.Fin 120%Q) TV.Num.Num.infinity) = false /\
+  TV.Model.GridTracks.fr_fuel C03_ex_fr_tracks = 4%nat /\
+  TV.Model.GridTracks.fr_exit C03_ex_fr_tracks (TV.Num.QNum.Fin 120%Q) = (TV.Num.QNum.Fin (120 # 2)%Q, TV.Num.QNum.Fin 20%Q, true).
+Proof.
+  split; [|vm_compute; repeat split; reflexivity].
+  repeat constructor; vm_compute; try exact I; discriminate.
+Qed.
+Definition C03_ex_max_tracks : list (TV.Model.GridTracks.track TV.Num.QNum.XQ) :=
+  let f := TV.Num.QNum.Fin in
+  let z := f 0%Q in
+  [ TV.Model.GridTracks.mk_track TV.Model.GridTracks.KTrack false (TV.Model.GridTracks.SLength z) (TV.Model.GridTracks.SLength (f 10%Q)) z z (f 10%Q) z z z false;
+    TV.Model.GridTracks.mk_track TV.Model.GridTracks.KTrack false (TV.Model.GridTracks.SLength z) (TV.Model.GridTracks.SLength (f 100%Q)) z z (f 100%Q) z z z false ].
+Example C03_maximise_distribute_fuel_example :
+  let lim := TV.Model.GridTracks.fit_content_limited_growth_limit None in
+  let loop := TV.Model.GridTracks.distribute_loop (fun _ => true) (fun _ => TV.Num.Num.one) TV.Model.GridTracks.base_size lim in
+  Forall (TV.Proofs.GridTracksProofs.tok None) C03_ex_max_tracks /\
+  (let r := loop 1%nat (TV.Num.QNum.Fin 60%Q) C03_ex_max_tracks in
+   TV.Model.GridTracks.distribute_step (fun _ => true) (fun _ => TV.Num.Num.one) TV.Model.GridTracks.base_size lim (fst r) (snd r) <> None) /\
+  map TV.Model.GridTracks.incurred (snd (loop (TV.Model.GridTracks.distribute_fuel C03_ex_max_tracks) (TV.Num.QNum.Fin 60%Q) C03_ex_max_tracks))
+  = [TV.Num.QNum.Fin 10%Q; TV.Num.QNum.Fin 50%Q].
+Proof.
+  cbv zeta. split; [|split; [vm_compute; discriminate|vm_compute; reflexivity]].
+  repeat constructor; vm_compute; try exact I; discriminate.
+Qed.
+
+(* Outside the classes the fuel statement for distribute_space_up_to_limits is FALSE of the model: with a NaN distribution proportion
+   (flex factor `fr(NaN)`; proportion = flex_factor is what distribute_item_space_to_base_size passes for a flexible batch) a round
+   accepts no increase (`NaN > 0.0` is false) and leaves space and tracks unchanged, so the exit test is never reached with ANY fuel:
+   the model returns the unchanged state after 2n+8 rounds, the Rust `while space_to_distribute > THRESHOLD` would not return.
+   REPRODUCED on the implementation (notes/FUEL.nanfr.rs, a standalone program, run under `timeout 5`): a grid with
+   `grid_template_columns: [fr(NaN)]` and one 50x20 child, compute_layout under max-content, does not return (with fr(1.0) it returns
+   50x20).  Not an input CSS or the style generators produce; proposed as a known finding under C03 (notes/FUEL.md). *)
+Definition C03_ex_nan_track : list (TV.Model.GridTracks.track TV.Num.QNum.XQ) :=
+  let f := TV.Num.QNum.Fin in
+  let z := f 0%Q in
+  [ TV.Model.GridTracks.mk_track TV.Model.GridTracks.KTrack false TV.Model.GridTracks.SAuto (TV.Model.GridTracks.SFr TV.Num.QNum.XNaN) z z TV.Num.QNum.PInf z z z false ].
+Theorem C03_distribute_loop_fuel_suffices_refuted :
+  exists (tracks : list (TV.Model.GridTracks.track TV.Num.QNum.XQ)) (sp : TV.Num.QNum.XQ),
+    forall fuel,
+      let r := TV.Model.GridTracks.distribute_loop (fun _ => true) TV.Model.GridTracks.flex_factor TV.Model.GridTracks.base_size
+                 TV.Model.GridTracks.growth_limit fuel sp tracks in
+      TV.Model.GridTracks.distribute_step (fun _ => true) TV.Model.GridTracks.flex_factor TV.Model.GridTracks.base_size
+        TV.Model.GridTracks.growth_limit (fst r) (snd r) <> None.
+Proof.
+  exists C03_ex_nan_track, (TV.Num.QNum.Fin 10%Q). intro fuel. cbv zeta.
+  assert (Hs : TV.Model.GridTracks.distribute_step (fun _ => true) TV.Model.GridTracks.flex_factor TV.Model.GridTracks.base_size
+                 TV.Model.GridTracks.growth_limit (TV.Num.QNum.Fin 10%Q) C03_ex_nan_track = Some (TV.Num.QNum.Fin 10%Q, C03_ex_nan_track))
+    by (vm_compute; reflexivity).
+  assert (Hl : TV.Model.GridTracks.distribute_loop (fun _ => true) TV.Model.GridTracks.flex_factor TV.Model.GridTracks.base_size
+                 TV.Model.GridTracks.growth_limit fuel (TV.Num.QNum.Fin 10%Q) C03_ex_nan_track = (TV.Num.QNum.Fin 10%Q, C03_ex_nan_track)).
+  { induction fuel as [|f IH]; [reflexivity|]. cbn [TV.Model.GridTracks.distribute_loop]. rewrite Hs. exact IH. }
+  rewrite Hl. cbn [fst snd]. rewrite Hs. discriminate.
+Qed.
+
+Print Assumptions C03_distribute_loop_fuel_suffices_refuted.
